@@ -142,6 +142,8 @@ def install(ctx, repo, probes):
                 make_parse("DurationParser"))
     probes.wrap(repo.parsers.TimeRecurrenceParser, "parse",
                 make_parse("TimeRecurrenceParser"))
+    ctx.target("strptime/legal", "strptime/refused",
+               "strptime/legal/dump_format", "strptime/refused/dump_format")
     for name in ("TimePointParser", "DurationParser",
                  "TimeRecurrenceParser"):
         ctx.target("fuzz/%s/rejected" % name, "fuzz/%s/accepted" % name)
@@ -309,6 +311,32 @@ def edge_cases(mode, years):
                            "legal": legal,
                            "fields": {"year": y, "week_of_year": w,
                                       "day_of_week": dow}}
+
+
+def strptime_cases(mode, years):
+    for y in years:
+        for mth, d in ((2, 28), (2, 29), (2, 30), (2, 31), (4, 30), (4, 31),
+                       (12, 31), (12, 32), (1, 0), (0, 1), (13, 1), (6, 15)):
+            legal = 1 <= mth <= 12 and 1 <= d <= R.month_len(mode, y, mth)
+            for df in (None, "CCYY-MM-DD"):
+                yield {"op": "strptime", "mode": mode, "fmt": "%Y-%m-%d",
+                       "text": "%04d-%02d-%02d" % (y, mth, d),
+                       "legal": legal, "dump_format": df}
+        for doy in (0, 1, 360, 361, 365, 366, 367):
+            for df in (None, "CCYY-DDD"):
+                yield {"op": "strptime", "mode": mode, "fmt": "%Y%j",
+                       "text": "%04d%03d" % (y, doy),
+                       "legal": 1 <= doy <= R.year_len(mode, y),
+                       "dump_format": df}
+        for h, m, sec, legal in ((23, 59, 59, True), (24, 0, 0, True),
+                                 (24, 0, 1, False), (24, 30, 0, False),
+                                 (25, 0, 0, False), (12, 60, 0, False),
+                                 (12, 0, 60, False), (0, 0, 0, True)):
+            for df in (None, "CCYYMMDDThhmmss"):
+                yield {"op": "strptime", "mode": mode,
+                       "fmt": "%Y-%m-%dT%H:%M:%S",
+                       "text": "%04d-01-15T%02d:%02d:%02d" % (y, h, m, sec),
+                       "legal": legal, "dump_format": df}
 
 
 EDGE_YEARS = list(range(-12, 13)) + list(range(1895, 1906)) + \
@@ -599,6 +627,40 @@ def run_case(ctx, repo, case):
             except Exception:
                 pass
             ctx.nontrivial((mode, "text", case["text"]))
+        elif op == "strptime":
+            # strptime is an entry point too (with and without its
+            # dump_format keyword)
+            ctx.ev("strptime.grid")
+            parser = ctx.parsers[case.get("cfg", 0)]
+            kw = {"dump_format": case["dump_format"]} \
+                if case.get("dump_format") else {}
+            try:
+                parser.strptime(case["text"], case["fmt"], **kw)
+                ok = True
+            except ValueError:
+                ok = False
+            except Exception as exc:
+                ctx.violation("fuzz.exception-type", "strptime(%r, %r) "
+                              "raised %s: %s" % (case["text"], case["fmt"],
+                                                 type(exc).__name__, exc),
+                              text=case["text"])
+                return
+            if ok and not case["legal"]:
+                ctx.violation("admitted-impossible", "strptime(%r, %r%s) "
+                              "admitted an impossible date-time (mode %s)" % (
+                                  case["text"], case["fmt"],
+                                  ", dump_format=%r" % case["dump_format"]
+                                  if kw else "", mode), text=case["text"])
+            elif not ok and case["legal"]:
+                ctx.violation("refused-valid", "strptime(%r, %r) refused a "
+                              "valid date-time (mode %s)" % (
+                                  case["text"], case["fmt"], mode),
+                              text=case["text"])
+            else:
+                ctx.cls("strptime/%s%s" % (
+                    "legal" if ok else "refused",
+                    "/dump_format" if kw else ""))
+            ctx.nontrivial((mode, "strptime", case["text"], bool(kw)))
         elif op == "fuzz":
             name = case["parser"]
             text = case["text"]
@@ -759,6 +821,13 @@ def workload(ctx, repo):
             ctx.case = case
             if i % 4001 == 0:
                 ctx.sample(case)
+            run_case(ctx, repo, case)
+    for mode in R.MODES:
+        for case in strptime_cases(mode, (2000, 2001, 1900, 2004, 0, 9999)):
+            i += 1
+            if not ctx.mine(i):
+                continue
+            ctx.case = case
             run_case(ctx, repo, case)
     for mode in R.MODES:
         for case in edge_cases(mode, EDGE_YEARS):
